@@ -292,6 +292,22 @@ def run(ctx, replay=None):
         t['steps'].append({'a': 'Commit', 'args': [], 'post': None})
     traces.append(t)
 
+    # 5e. totality under a flood of bad signatures: at least as many unverifiable transactions as signature-checking
+    #     goroutines, followed by further transactions - for 1, 2, 8 goroutines and the package default (NumCPU <= 16)
+    for rt, nbad in ((1, 2), (2, 3), (8, 9), (-1, 17)):
+        t = {'id': 'badsig-flood-%s' % ('default' if rt < 0 else rt),
+             'cfg': {'accts': [1, 2], 'keys': ['k1'], 'maxn': 2, 'mode': 'model', 'routines': rt}, 'init': None, 'steps': []}
+        t['steps'].append({'a': 'Begin', 'args': [], 'post': None})
+        for i in range(nbad):
+            t['steps'].append({'a': 'ExecTx', 'args': [{'c': 'badsig', 'a': 0, 'n': 0, 'k': '-', 'v': '-'}, 'invalid', i], 'post': None})
+        t['steps'].append({'a': 'ExecTx', 'args': [tx('xfer', 1, 0), 'valid'], 'post': None})
+        t['steps'].append({'a': 'ExecTx', 'args': [tx('kv', 2, 0) | {'k': 'k1', 'v': 'a'}, 'valid'], 'post': None})
+        t['steps'].append({'a': 'Commit', 'args': [], 'post': None})
+        t['steps'].append({'a': 'Begin', 'args': [], 'post': None})
+        t['steps'].append({'a': 'ExecTx', 'args': [tx('xfer', 1, 1), 'valid'], 'post': None})
+        t['steps'].append({'a': 'Commit', 'args': [], 'post': None})
+        traces.append(t)
+
     # 6. byte-level mutants (bounded): model-independent oracles only
     nm = 6 if quick else 60
     for k in range(nm):
